@@ -218,6 +218,13 @@ fn derive_enum_tojson(
     })
 }
 
+/// The local a derived body binds the `idx`-th field to. A user cannot write this name, so it
+/// can neither hide a helper the body calls (`bool_to_string`, `json_escape_string`, ...) nor be
+/// taken for a variant of the same spelling as the field.
+fn struct_field_local(idx: usize) -> AstIdent {
+    AstIdent::new(&format!("__field{}", idx))
+}
+
 fn build_struct_json_body(struct_def: &StructDef, attr_ptr: &MySyntaxNodePtr) -> Expr {
     if struct_def.fields.is_empty() {
         return Expr::EString {
@@ -247,7 +254,7 @@ fn build_struct_json_body(struct_def: &StructDef, attr_ptr: &MySyntaxNodePtr) ->
         });
         // field value as JSON
         parts.push(call_to_json(
-            var_expr(field_name, attr_ptr),
+            var_expr(&struct_field_local(idx), attr_ptr),
             Some(field_ty),
             attr_ptr,
         ));
@@ -267,11 +274,12 @@ fn build_struct_json_body(struct_def: &StructDef, attr_ptr: &MySyntaxNodePtr) ->
                     fields: struct_def
                         .fields
                         .iter()
-                        .map(|(field_name, _)| {
+                        .enumerate()
+                        .map(|(idx, (field_name, _))| {
                             (
                                 field_name.clone(),
                                 Pat::PVar {
-                                    name: field_name.clone(),
+                                    name: struct_field_local(idx),
                                     astptr: *attr_ptr,
                                 },
                             )
@@ -383,7 +391,7 @@ fn build_struct_body(struct_def: &StructDef, attr_ptr: &MySyntaxNodePtr) -> Expr
             astptr: *attr_ptr,
         });
         parts.push(call_to_string(
-            var_expr(field_name, attr_ptr),
+            var_expr(&struct_field_local(idx), attr_ptr),
             Some(field_ty),
             attr_ptr,
         ));
@@ -409,11 +417,12 @@ fn build_struct_body(struct_def: &StructDef, attr_ptr: &MySyntaxNodePtr) -> Expr
                     fields: struct_def
                         .fields
                         .iter()
-                        .map(|(field_name, _)| {
+                        .enumerate()
+                        .map(|(idx, (field_name, _))| {
                             (
                                 field_name.clone(),
                                 Pat::PVar {
-                                    name: field_name.clone(),
+                                    name: struct_field_local(idx),
                                     astptr: *attr_ptr,
                                 },
                             )
